@@ -10,6 +10,9 @@ K  (model vs implementation)
               garbage, missing object) x pointers (digest right / wrong / absent, schema) x fault sequences (the object changes
               between retry attempts) x retry budgets: `resolve_external_location` == Lean `C30.resolve` (outcome class, the
               exact `on_log` calls, the returned batch).
+   K-externalize  `maybe_externalize_batch/_collector` on payloads of every entropy (zeros, text, random, already deflated /
+              zstd frames) x size (0 B … 70 kB) x codec x level: upload decision == Lean guards; the stored object is exactly
+              (comp(raw), Content-Encoding = codec) with sha(raw) on the pointer == Lean `externalize`; O: it resolves to what went in.
    K-route    for every generated program and configuration: which cycles / results / headers are offloaded (number and
               order of uploads) == Lean `wantsBatch` / `wantsCollector` / `serveAll`.
    K-stream   socket family: per stream, the exact event sequence the client observed == Lean `C30.Pipe.iterate /
@@ -81,7 +84,8 @@ PARTIAL = [
     "compression off",
 ]
 RULE = (
-    "programs: 2-4 methods (unary / producer / exchange, with / without header; unique log texts; batch rows in {0,1,2,7,60}; "
+    "programs: 2-4 methods (unary / producer / exchange, with / without header; unique log texts; batch rows in {0,1,2,7,60} or "
+    "600-6000 rows of incompressible values; "
     "failing steps) x scripts (every call consumed; request pads and exchange inputs small or above max_request_bytes) x "
     "configurations {no storage, threshold 0, threshold = a batch size -1/0/+1, threshold never} x {none, zstd, gzip} x "
     "{pipe, http, http with max_response_bytes, http + upload-URL flow}; corruption = (upload index, one of flip / truncate / "
@@ -138,7 +142,12 @@ def gen_batch(rng: Any, ident: int) -> dict[str, Any]:
     meta = {}
     if rng.random() < 0.3:
         meta[rng.choice(["a", "app.key", "z"])] = rng.choice(["b", "", "ü", "1"])
-    return {"id": ident, "rows": rng.choice([1, 1, 2, 7, 60, 0]), "meta": meta}
+    b = {"id": ident, "rows": rng.choice([1, 1, 2, 7, 60, 0]), "meta": meta}
+    if rng.random() < 0.25:
+        # payload entropy: column values no codec can shrink (the compressed frame is LARGER than the raw IPC stream)
+        b["rows"] = rng.choice([600, 2500, 2500, 6000])
+        b["ent"] = "rand"
+    return b
 
 
 def gen_steps(rng: Any, nm: Namer, exchange: bool, base: int) -> list[dict[str, Any]]:
@@ -380,7 +389,8 @@ def check_program(ctx: Any, store: extsvc.Store, desc: dict[str, Any], script: l
         case = {"kind": "program", "service": desc, "script": script, "cfg": cfg_dict(cfg)}
         r = extsvc.run_script(desc, script, cfg, store)
         ups = r["uploads"]
-        ctx.case(case, nontrivial=bool(ups), tags=(f"t:{cfg.kind}", f"comp:{cfg.compression}", f"thr:{thr_tag(cfg)}",
+        ent = any(u.side == "server" and len(u.data) > 4000 for u in ups)
+        ctx.case(case, nontrivial=bool(ups), tags=(f"t:{cfg.kind}", f"comp:{cfg.compression}", f"thr:{thr_tag(cfg)}", f"big-object:{ent}",
                                                    f"uploads:{min(len(ups), 5)}", f"client-up:{sum(u.side == 'client' for u in ups) > 0}"))
         if r["hung"] or len(r["trace"]) != len(script):
             ctx.fail(case, f"C30:hung:{cfg.kind}", f"script did not complete on {cfg.label()} ({len(r['trace'])}/{len(script)} ops)")
@@ -393,8 +403,8 @@ def check_program(ctx: Any, store: extsvc.Store, desc: dict[str, Any], script: l
             if b["hung"] or len(b["trace"]) != len(script) or b["uploads"]:
                 ctx.fail({**case, "cfg": cfg_dict(bc)}, f"C30:hung:inline:{bc.kind}", f"inline baseline {bc.label()} did not complete")
                 continue
-            bases[bc.label()] = (split_calls(script, b["trace"]), server_records(b["events"]))
-        bcalls, brecs = bases[bc.label()]
+            bases[bc.label()] = (split_calls(script, b["trace"]), server_records(b["events"]), b["digests"])
+        bcalls, brecs, bdig = bases[bc.label()]
         # ---- O-transparent: same observation per call, same things handed to the server's application code
         for i, ((n1, e1), (_n2, e2)) in enumerate(zip(bcalls, calls)):
             if obs_of(e1) != obs_of(e2):
@@ -403,6 +413,9 @@ def check_program(ctx: Any, store: extsvc.Store, desc: dict[str, Any], script: l
                 ctx.fail({**case, "call_index": i}, f"C30:not-transparent:{by_name[n1]['kind']}:{what}:{cfg.kind}",
                          f"{cfg.label()}: call {i} ({n1}) observed {json.dumps(o2)[:300]} but inline delivery is {json.dumps(o1)[:300]}")
                 break
+        if r["digests"] != bdig and all(obs_of(e1) == obs_of(e2) for (_a, e1), (_b, e2) in zip(bcalls, calls)):
+            ctx.fail(case, f"C30:not-transparent:content:{cfg.kind}",
+                     f"{cfg.label()}: same batches by id / rows / metadata but different column data than inline delivery")
         if server_records(r["events"]) != brecs:
             ctx.fail(case, f"C30:not-transparent:request:{cfg.kind}",
                      f"{cfg.label()}: the server's methods received {server_records(r['events'])[:6]} but inline they receive {brecs[:6]}")
@@ -754,6 +767,108 @@ def gen_resolve_case(rng: Any) -> dict[str, Any]:
             "max_retries": rng.choice([0, 1, 2, 2, 5, -1])}
 
 
+# ================================================================================================ K/O-externalize: the upload itself
+
+
+def payload_column(kind: str, n: int, seed: int) -> pa.Array:
+    """One binary column of `n` bytes per row kind: how compressible the offloaded bytes are is the dimension here."""
+    import random
+    import zlib
+
+    r = random.Random(seed)
+    if kind == "zeros":
+        blob = bytes(n)
+    elif kind == "text":
+        blob = (b"the quick brown fox " * (n // 20 + 1))[:n]
+    elif kind == "random":
+        blob = r.randbytes(n)
+    elif kind == "deflated":                      # already-compressed content
+        blob = zlib.compress(r.randbytes(n), 9)[:n] if n else b""
+    elif kind == "zstd-frame":
+        blob = extsvc.encode_object(r.randbytes(n), "zstd")[:n] if n else b""
+    else:
+        raise ValueError(kind)
+    return pa.array([blob], type=pa.binary())
+
+
+BLOB_SCHEMA = pa.schema([("blob", pa.binary())])
+
+
+def gen_externalize_case(rng: Any) -> dict[str, Any]:
+    return {"kind": "externalize", "via": rng.choice(["batch", "collector", "collector"]),
+            "payload": rng.choice(["zeros", "text", "random", "random", "deflated", "zstd-frame"]),
+            "size": rng.choice([0, 1, 7, 64, 300, 5000, 20000, 20000, 70000]), "seed": rng.randrange(1000),
+            "logs": rng.choice([0, 1, 3]), "compression": rng.choice([None, "zstd", "zstd", "gzip", "gzip"]),
+            "level": rng.choice([1, 3, 3, 9, 19]), "threshold": rng.choice([0, 0, 1, 100, 10**9]), "nosha": rng.random() < 0.2}
+
+
+def run_externalize_case(ctx: Any, store: extsvc.Store, case: dict[str, Any]) -> None:
+    """`maybe_externalize_batch/_collector` on one payload, then the real resolution of what it produced.
+    K: an upload happens iff the model's guard says so; the stored object is (comp(raw), label) with the configured codec —
+       i.e. it decodes under ITS OWN Content-Encoding to bytes whose digest is the pointer's, and re-encoding those bytes gives
+       the stored bytes.   O: resolving the pointer yields the same batch and the same logs as were handed in."""
+    from vgi_rpc.external import Compression, ExternalLocationConfig, maybe_externalize_batch, maybe_externalize_collector, resolve_external_location
+    from vgi_rpc.log import Level
+    from vgi_rpc.rpc import OutputCollector
+
+    storage = extsvc.RecordingStorage(store)
+    level = min(case["level"], 9) if case["compression"] == "gzip" else case["level"]
+    comp = Compression(case["compression"], level) if case["compression"] else None
+    cfg = ExternalLocationConfig(storage=storage, externalize_threshold_bytes=case["threshold"], compression=comp, url_validator=None,
+                                 retry_delay_seconds=0.0, max_retries=0, fetch_config=store.fetch_config)
+    batch = pa.RecordBatch.from_arrays([payload_column(case["payload"], case["size"], case["seed"])], schema=BLOB_SCHEMA)
+    logs_in = [["log", "INFO", f"x{k}", []] for k in range(case["logs"])]
+    with extsvc.pointers_without_sha(case["nosha"]):
+        if case["via"] == "batch":
+            pb, pcm, _n = maybe_externalize_batch(batch, pa.KeyValueMetadata({b"app": b"1"}), cfg)
+            wire = [(pb, pcm)]
+            logs_in = []
+        else:
+            out = OutputCollector(BLOB_SCHEMA)
+            for k in range(case["logs"]):
+                out.client_log(Level.INFO, f"x{k}")
+            out.emit(batch, metadata={"app": "1"})
+            wire, _n = maybe_externalize_collector(out, cfg)
+    ups = storage.uploads
+    size = batch.get_total_buffer_size()
+    ctx.case(case, nontrivial=bool(ups), tags=("k:externalize", f"payload:{case['payload']}", f"xcomp:{case['compression']}",
+                                               f"xsize:{'big' if case['size'] >= 5000 else 'small'}", f"uploaded:{bool(ups)}"))
+    if ctx.driver is not None:
+        d = ctx.driver.call("C30.decide", {"cfg": {"storage": True, "threshold": case["threshold"],
+                                                   "compression": None if not case["compression"] else ["zstd", "gzip"].index(case["compression"])},
+                                           "rows": 1, "size": size})
+        want = d["batch"] if case["via"] == "batch" else d["collector"]
+        if want != bool(ups):
+            ctx.mismatch(case, want, bool(ups), "upload decision vs wantsBatch / wantsCollector")
+    if not ups:
+        return
+    up = ups[0]
+    ptr_b, ptr_cm = wire[0]
+    ptr_sha = ptr_cm.get(b"vgi_rpc.location.sha256") if ptr_cm is not None else None
+    dec = extsvc.decode_object(up.data, up.encoding)
+    grew = len(up.data) >= len(dec) if dec is not None else None
+    ctx.tag(f"frame-not-smaller:{grew}")
+    ok_stored = (up.encoding == case["compression"] and dec is not None
+                 and (ptr_sha is None or hashlib.sha256(dec).hexdigest().encode() == ptr_sha)
+                 and extsvc.encode_object(dec, up.encoding, level=level) == up.data)
+    if not ok_stored:
+        ctx.mismatch(case, {"encoding": case["compression"], "body": "comp(raw)", "sha": "sha(raw)"},
+                     {"encoding": up.encoding, "decodes": dec is not None, "len": len(up.data)},
+                     "stored object vs C30.externalize: (comp c raw, Content-Encoding c), digest of raw on the pointer")
+    got: list[Any] = []
+    try:
+        client = ExternalLocationConfig(storage=None, url_validator=None, retry_delay_seconds=0.0, max_retries=0, fetch_config=store.fetch_config)
+        rb, rcm = resolve_external_location(ptr_b, ptr_cm, client, lambda m: got.append(c01.canon_ev(svcgen._ev_log(m))))
+        same = rb.equals(batch) and got == logs_in and rcm is not None and rcm.get(b"app") == b"1"
+        what = f"batch equal: {rb.equals(batch)}, logs {got} vs {logs_in}"
+    except Exception as e:  # noqa: BLE001
+        same, what = False, f"{type(e).__name__}: {str(e)[:160]}"
+    if not same:
+        ctx.fail(case, f"C30:not-transparent:externalize:{case['via']}:{case['compression']}:{case['payload']}",
+                 f"{case['via']} offload of a {case['size']}-byte {case['payload']} payload with compression={case['compression']} "
+                 f"(stored {len(up.data)} bytes as {up.encoding!r}) does not resolve to what was offloaded: {what}")
+
+
 # ================================================================================================ corruption (O-integrity, K-stream under faults)
 
 FORGED_ID = 66600
@@ -1073,6 +1188,15 @@ def _run(ctx: Any, rng: Any, store: extsvc.Store) -> None:
     # ---- K-resolve
     for _ in range(ctx.budget(300, 4000)):
         run_resolve_case(ctx, store, gen_resolve_case(rng))
+    # ---- K/O-externalize: payload entropy x size x codec x level, directly on maybe_externalize_* and the resolution
+    for payload in ("random", "deflated", "zstd-frame", "zeros"):
+        for compn in ("zstd", "gzip", None):
+            for size in (0, 64, 20000):
+                run_externalize_case(ctx, store, {"kind": "externalize", "via": "collector" if size else "batch", "payload": payload,
+                                                  "size": size, "seed": 1, "logs": 1, "compression": compn, "level": 3, "threshold": 0,
+                                                  "nosha": False})
+    for _ in range(ctx.budget(60, 1500)):
+        run_externalize_case(ctx, store, gen_externalize_case(rng))
     # ---- corpus: transparency over the whole matrix, then the corruption list on its streams
     corpus = _corpus()
     for j, (desc, script) in enumerate(corpus):
@@ -1146,6 +1270,8 @@ def replay(ctx: Any, case: dict[str, Any]) -> None:
             case.pop(k, None)
         if case["kind"] == "resolve":
             run_resolve_case(ctx, store, case)
+        elif case["kind"] == "externalize":
+            run_externalize_case(ctx, store, case)
         elif case["kind"] == "program":
             check_program(ctx, store, case["service"], case["script"], [cfg_of(case["cfg"])])
         elif case["kind"] == "corruption":
